@@ -742,13 +742,23 @@ func (st *State) indexAddr(fr *Frame, in *ssa.IndexAddr) Value {
 	})
 }
 
+// sub applies the current variable bindings (constants / range views) to a scalar.
+func (st *State) sub(n *term.Node) *term.Node {
+	if n.Op == term.OpVar && len(st.subst) > 0 {
+		if c, ok := st.subst[n]; ok {
+			return c
+		}
+	}
+	return n
+}
+
 func (st *State) strIndex(s Str, idx *term.Node) Value {
 	b := st.b
 	if c, ok := idx.ConstVal(); ok {
 		if int64(c) < 0 || int64(c) >= int64(len(s.B)) {
 			st.certainPanic("string index out of range")
 		}
-		return s.B[c]
+		return st.sub(s.B[c])
 	}
 	st.panicIf(b.Ule(b.Const(64, uint64(len(s.B))), idx), "string index out of range")
 	lo, hi := st.idxRange(idx, len(s.B))
